@@ -37,6 +37,8 @@ def pc (n : Nat) : Code := ⟨"pocketcore", n⟩
 def internal : Code := ⟨"sdk", 1⟩
 /-- Placeholder for "rejected by the ante handler" (the concrete code is C14–C16's subject). -/
 def ante : Code := ⟨"ante", 0⟩
+/-- `codeDuplicateTransaction` of `baseapp.DeliverTx` (the same bytes were delivered before). -/
+def duplicate : Code := ⟨"auth", 6⟩
 def noEvidenceType := pc 84
 def invalidBlockHeight := pc 60
 def invalidProofs := pc 49
@@ -133,6 +135,8 @@ structure MsgClaim where
 /-- Every fact `ValidateClaim`/`SetClaim` read that is not part of the message or of the claims
 store.  "session context" = `ctx.PrevCtx(SessionBlockHeight)`. -/
 structure ClaimEnv where
+  /-- the same transaction bytes were delivered before (`baseapp.DeliverTx` transaction cache; C16). -/
+  dup : Bool := false
   /-- `MsgClaim.ValidateBasic()` (stateless syntax; run by `baseapp.runTx` before the ante handler). -/
   vb : Option Code
   /-- the ante handler accepts the transaction (signature of `FromAddress`, fee, not a duplicate). -/
@@ -196,8 +200,9 @@ def handleClaim (s : State) (m : MsgClaim) (e : ClaimEnv) : TxResult :=
       let c := storedClaim s.height m e
       ⟨none, { s with claims := s.claims.set m.key c }, [.accepted m.key c]⟩
 
-/-- DeliverTx of a claim transaction: `ValidateBasic`, ante handler, handler. -/
+/-- DeliverTx of a claim transaction: duplicate check, `ValidateBasic`, ante handler, handler. -/
 def deliverClaim (s : State) (m : MsgClaim) (e : ClaimEnv) : TxResult :=
+  if e.dup then ⟨some Code.duplicate, s, []⟩ else
   match e.vb with
   | some c => ⟨some c, s, []⟩
   | none => if !e.anteOk then ⟨some Code.ante, s, []⟩ else handleClaim s m e
@@ -227,6 +232,8 @@ structure MsgProof where
 
 /-- Every fact `ValidateProof`/`ExecuteProof` read beyond the claims store. -/
 structure ProofEnv where
+  /-- the same transaction bytes were delivered before (`baseapp.DeliverTx` transaction cache; C16). -/
+  dup : Bool := false
   vb : Option Code
   anteOk : Bool
   /-- `len(HashRanges) == ceil(log2(claim.TotalProofs))`. -/
@@ -290,6 +297,7 @@ def handleProof (fixed : Bool) (s : State) (m : MsgProof) (e : ProofEnv) : TxRes
 
 /-- DeliverTx of a proof transaction. -/
 def deliverProof (fixed : Bool) (s : State) (m : MsgProof) (e : ProofEnv) : TxResult :=
+  if e.dup then ⟨some Code.duplicate, s, []⟩ else
   match e.vb with
   | some c => ⟨some c, s, []⟩
   | none => if !e.anteOk then ⟨some Code.ante, s, []⟩ else handleProof fixed s m e
@@ -369,7 +377,7 @@ def live (cs : Claims) (k : ClaimKey) : Nat := if (cs.get k).isSome then 1 else 
 
 /-- Everything the property demands of an accepted claim. -/
 def claimAcceptable (h : Int) (m : MsgClaim) (e : ClaimEnv) : Bool :=
-  e.vb.isNone && e.anteOk && (m.key.et == 1 || m.key.et == 2) && e.sessCtxOk
+  !e.dup && e.vb.isNone && e.anteOk && (m.key.et == 1 || m.key.et == 2) && e.sessCtxOk
   && decide (h > m.key.sbh + e.sessB - 1)           -- the session has ended
   && decide (e.minProofs ≤ m.total)
   && e.chainSupported && e.nodeFound && e.appFound
@@ -379,7 +387,7 @@ def claimAcceptable (h : Int) (m : MsgClaim) (e : ClaimEnv) : Bool :=
 
 /-- Everything the property demands of a proof that is paid, given the stored claim. -/
 def proofPayable (cs : Claims) (m : MsgProof) (e : ProofEnv) : Bool :=
-  e.vb.isNone && e.anteOk && (cs.get m.key).isSome && e.levelOk && e.rootMatch && e.sessCtxOk
+  !e.dup && e.vb.isNone && e.anteOk && (cs.get m.key).isSome && e.levelOk && e.rootMatch && e.sessCtxOk
   && e.indexAvail && e.indexOk && (e.merkle == .valid) && e.appFound && e.leafErr.isNone
 
 end Pocket
